@@ -262,6 +262,56 @@ fn c08_abandoned_read() {
     kani::cover!(true, "end");
 }
 
+/// C10 c10.readnbuf.pool - "for every kind of read buffer": read_n / recv_n wrap the caller's buffer in ReadNBuf; with a
+/// pool buffer the first request must be a buffer-select read from the pool's group (exactly what read() submits,
+/// c13.enc.read_pool), the kernel-chosen slot becomes the buffer with last_read = n, and the continuation targets the
+/// spare part of that same slot.
+#[kani::proof]
+#[kani::unwind(3)]
+fn c10_readnbuf_pool() {
+    let mut fp = FakePool::<P4, BS8>::new();
+    let mut ring = FakeSq::<1>::new(0, 0, 0);
+    let subs = subs_of(ring.shared(1, false, false));
+    let (afd, n, _kind) = any_fd(&subs);
+    let gid: u16 = kani::any();
+    let pool = fp.pool(sq_from((*subs).clone()), gid);
+    let shared = std::sync::Arc::new(ManuallyDrop::into_inner(pool));
+    let _keep = ManuallyDrop::new(shared.clone());
+    let mut buf = crate::io::ReadNBuf { buf: ReadBuf { shared, owned: None }, last_read: 0 };
+    let mut off: u64 = kani::any();
+    let off0 = off;
+    let mut s = zero_sqe();
+    <ReadOp<crate::io::ReadNBuf<ReadBuf>> as FdOp>::fill_submission(&afd, &mut buf, &mut off, &mut s);
+    let mut e = zero_sqe();
+    e.0.opcode = libc::IORING_OP_READ as u8;
+    e.0.fd = n;
+    e.0.__bindgen_anon_1 = libc::io_uring_sqe__bindgen_ty_1 { off: off0 };
+    e.0.__bindgen_anon_4.buf_group = gid;
+    e.0.flags = libc::IOSQE_BUFFER_SELECT;
+    assert!(sqe_bytes(&s) == sqe_bytes(&e), "read_n with a pool buffer: BUFFER_SELECT from this pool's group, the same request read() makes");
+    let id: u16 = kani::any();
+    kani::assume((id as usize) < P4);
+    let got: u32 = kani::any();
+    kani::assume(got >= 1 && got as usize <= BS8);
+    let fl = libc::IORING_CQE_F_BUFFER | ((id as u32) << libc::IORING_CQE_BUFFER_SHIFT);
+    let mut out = <ReadOp<crate::io::ReadNBuf<ReadBuf>> as FdOp>::map_ok(&afd, buf, (cflags(fl), got));
+    assert!(out.last_read == got as usize, "bytes of this read are counted");
+    assert!(matches!(out.buf.owned, Some(p) if p.cast::<u8>().as_ptr().addr() == fp.buf_addr(id as usize) && p.len() == got as usize), "owns exactly the slot the kernel chose");
+    // continuation (left > got): the spare part of the same slot, no second buffer selection
+    let mut s2 = zero_sqe();
+    <ReadOp<crate::io::ReadNBuf<ReadBuf>> as FdOp>::fill_submission(&afd, &mut out, &mut off, &mut s2);
+    let mut e2 = zero_sqe();
+    e2.0.opcode = libc::IORING_OP_READ as u8;
+    e2.0.fd = n;
+    e2.0.__bindgen_anon_1 = libc::io_uring_sqe__bindgen_ty_1 { off: off0 };
+    e2.0.__bindgen_anon_2 = libc::io_uring_sqe__bindgen_ty_2 { addr: (fp.buf_addr(id as usize) + got as usize) as u64 };
+    e2.0.len = BS8 as u32 - got;
+    assert!(sqe_bytes(&s2) == sqe_bytes(&e2), "continuation reads into the rest of the same slot");
+    std::mem::forget(out);
+    kani::cover!(got == 8, "slot filled by the first read");
+    kani::cover!(got == 1 && id == 3, "short first read into the last slot");
+}
+
 /// multishot read: each result's buffer id becomes one ReadBuf owning that slot; no buffer flag => empty ReadBuf
 #[kani::proof]
 #[kani::unwind(3)]
